@@ -101,6 +101,12 @@ def c03_cells(tier="quick"):
                     cells.append((f"ScheduleN.{mode}.{tag}.n{n}.{nm}", base(H, mk(), constraints=[
                         {"id": "c", "kind": "ScheduleNTasksInTimeIntervals", "tasks": ["t0", "t1"], "n": n,
                          "intervals": ivs, "mode": mode}])))
+    # a single listed task
+    for mode in ("exact", "min", "max"):
+        for n in (0, 1):
+            cells.append((f"ScheduleN1.{mode}.n{n}", base(H, [fx("t0", 2), fx("t1", 1)], constraints=[
+                {"id": "c", "kind": "ScheduleNTasksInTimeIntervals", "tasks": ["t0"], "n": n,
+                 "intervals": [[0, 3]], "mode": mode}])))
     H3 = 4
     for tag, mk in TRIPLES:
         cells.append((f"TasksContiguous3.{tag}", base(H3, mk(), constraints=[
